@@ -134,6 +134,21 @@ def compile_case(ctx, env, text, expect_ok, cls, label, ast=None):
         ctx.sample({"text": text, "expected": "compile" if expect_ok else "reject", "label": label, "outcome": out.desc()})
 
 
+def toggled_envs():
+    """Type checks enabled by assignment after construction, and by a subclass's __init__."""
+    import jsonpath
+
+    a = jsonpath.JSONPathEnvironment(well_typed=False)
+    a.well_typed = True
+
+    class Late(jsonpath.JSONPathEnvironment):
+        def __init__(self):
+            super().__init__(well_typed=False)
+            self.well_typed = True
+
+    return [a, Late()]
+
+
 def narrow_env():
     import jsonpath
 
@@ -181,6 +196,13 @@ def run(spec, ctx):
     env = jsonpath.JSONPathEnvironment()
     kind = spec["kind"]
     if kind == "labelled":
+        for tenv in toggled_envs():
+            for label, item in ill_items(r):
+                for pos in ("top", "not", "and-right", "nested-filter"):
+                    ast = ["q", "$", [["child", [["filter", CONTEXTS[pos](copy.deepcopy(item))]]]]]
+                    if ref_typing.errors(ast):
+                        compile_case(ctx, tenv, Renderer(r, plain=True).top(ast), False, "toggled-on:labelled", label, ast)
+                        ctx.cell("configurations", "type checks switched on after construction")
         for rep in range(spec["spellings"]):
             for label, item in ill_items(r):
                 for pos, wrap in CONTEXTS.items():
@@ -265,5 +287,5 @@ def replay(case, ctx):
     install()
     import jsonpath
 
-    env = narrow_env() if case.get("narrow") else jsonpath.JSONPathEnvironment()
+    env = narrow_env() if case.get("narrow") else (toggled_envs()[0] if str(case.get("class", "")).startswith("toggled-on") else jsonpath.JSONPathEnvironment())
     compile_case(ctx, env, case["text"], case["expect_ok"], case["class"], case["label"], case.get("ast"))
